@@ -143,7 +143,7 @@ Lemma canvas_in_max_bbox W H : 1 <= W <= CANVAS_MAX -> 1 <= H <= CANVAS_MAX ->
 Proof.
   intros HW HH. eexists. split; [apply max_bbox_spec; assumption|].
   unfold valid_irect, inside, canvas_rect, i_right, i_bottom, mk_irect, CANVAS_MAX,
-    MAXBB_OFF_X, MAXBB_OFF_Y, MAXBB_MUL_W, MAXBB_MUL_H in *; simpl. consts. repeat split; lia.
+    MAXBB_OFF_X, MAXBB_OFF_Y, MAXBB_MUL_W, MAXBB_MUL_H in *; cbn [ix iy iw ih]. consts. repeat split; lia.
 Qed.
 
 (* ---------------------------------------------------------------- casts *)
@@ -259,7 +259,7 @@ Qed.
 
 Lemma raw_box_shift dx dy b nf : raw_box (qshift dx dy b) nf = ishift dx dy (raw_box b nf).
 Proof.
-  unfold raw_box, qshift, ishift. destruct nf; simpl; rewrite !floor_shift; f_equal; lia.
+  unfold raw_box, qshift, ishift. destruct nf; cbn [rx ry rw rh ix iy iw ih]; rewrite !floor_shift; f_equal; lia.
 Qed.
 
 (* equivariance of the source-derived layer box when the maximum box moves along *)
@@ -360,34 +360,31 @@ Definition touches (b : qrect) (margin : Q) (px py : Z) : Prop :=
   (rx b - margin < inject_Z (px + 1) /\ inject_Z px < rx b + rw b + margin /\
    ry b - margin < inject_Z (py + 1) /\ inject_Z py < ry b + rh b + margin)%Q.
 
-Lemma touches_raw_box b nf px py :
-  touches b (if nf then 1 else 0)%Q px py -> in_irect (raw_box b nf) px py.
+Lemma touches_raw_box b px py : touches b 1%Q px py -> in_irect (raw_box b true) px py.
 Proof.
-  unfold touches, in_irect, raw_box, i_right, i_bottom. intros [A [B [C D]]].
+  unfold touches. intros [A [B [C D]]].
   pose proof (Qfloor_le (rx b)) as F1. pose proof (Qlt_floor (rx b)) as F2.
   pose proof (Qfloor_le (ry b)) as G1. pose proof (Qlt_floor (ry b)) as G2.
   pose proof (Qle_ceiling (rw b)) as W1. pose proof (Qle_ceiling (rh b)) as H1.
-  rewrite inject_Z_plus in *. unfold f32_floor, f32_ceil.
-  destruct nf; simpl.
-  - repeat split; apply Zlt_of_Q || (apply Z.lt_succ_r; apply Zlt_of_Q);
-      unfold Z.succ; rewrite ?inject_Z_plus, ?inject_Z_opp; try rewrite (inject_Z_plus _ (-2));
-      simpl inject_Z; try lra.
-    + replace (Qfloor (rx b) - 2 + (Qceiling (rw b) + 4)) with (Qfloor (rx b) + Qceiling (rw b) + 2) by lia.
-      rewrite !inject_Z_plus. simpl inject_Z. lra.
-    + replace (Qfloor (ry b) - 2 + (Qceiling (rh b) + 4)) with (Qfloor (ry b) + Qceiling (rh b) + 2) by lia.
-      rewrite !inject_Z_plus. simpl inject_Z. lra.
-  - assert (X : inject_Z (Qceiling (rw b)) <= inject_Z (Z.max 1 (Qceiling (rw b))))%Q
-      by (rewrite <- Zle_Qle; lia).
-    assert (Y : inject_Z (Qceiling (rh b)) <= inject_Z (Z.max 1 (Qceiling (rh b))))%Q
-      by (rewrite <- Zle_Qle; lia).
-    repeat split; apply Zlt_of_Q || (apply Z.lt_succ_r; apply Zlt_of_Q);
-      unfold Z.succ; rewrite ?inject_Z_plus; simpl inject_Z; try lra.
+  rewrite inject_Z_plus in A, C, F2, G2. change (inject_Z 1) with 1%Q in *.
+  set (fx := Qfloor (rx b)) in *. set (fy := Qfloor (ry b)) in *.
+  set (cw := Qceiling (rw b)) in *. set (ch := Qceiling (rh b)) in *.
+  assert (fx < px + 2)
+    by (apply Zlt_of_Q; rewrite inject_Z_plus; change (inject_Z 2) with (2 # 1)%Q; lra).
+  assert (px < fx + cw + 2)
+    by (apply Zlt_of_Q; rewrite !inject_Z_plus; change (inject_Z 2) with (2 # 1)%Q; lra).
+  assert (fy < py + 2)
+    by (apply Zlt_of_Q; rewrite inject_Z_plus; change (inject_Z 2) with (2 # 1)%Q; lra).
+  assert (py < fy + ch + 2)
+    by (apply Zlt_of_Q; rewrite !inject_Z_plus; change (inject_Z 2) with (2 # 1)%Q; lra).
+  unfold in_irect, raw_box, i_right, i_bottom, f32_floor, f32_ceil; cbn [ix iy iw ih].
+  fold fx fy cw ch. lia.
 Qed.
 
-Lemma layer_covers_content b nf m W H px py :
+Lemma layer_covers_content b m W H px py :
   small_bbox b -> valid_irect m -> inside (canvas_rect W H) m ->
-  in_irect (canvas_rect W H) px py -> touches b (if nf then 1 else 0)%Q px py ->
-  in_lres (layer_box b nf m) px py.
+  in_irect (canvas_rect W H) px py -> touches b 1%Q px py ->
+  in_lres (layer_box b true m) px py.
 Proof.
   intros S Vm I C T. apply layer_pixels_small; auto. split.
   - apply touches_raw_box; assumption.
@@ -432,8 +429,8 @@ Proof.
   rewrite (fit_to_rect_inside_id _ _ (raw_box_valid b false S) Vm C).
   unfold filter_region.
   assert (S' : small_bbox (qshift (- ix (raw_box b false)) (- iy (raw_box b false)) b)).
-  { destruct S as [[X1 X2] [[Y1 Y2] [W H]]]. unfold small_bbox, qshift; simpl.
-    rewrite !floor_shift. consts. repeat split; lia. }
+  { destruct S as [[X1 X2] [[Y1 Y2] [W H]]]. unfold small_bbox, qshift; cbn [rx ry rw rh].
+    rewrite !floor_shift. unfold raw_box; cbn [ix iy]. consts. repeat split; lia. }
   rewrite (to_int_rect_small _ S'). rewrite raw_box_shift. unfold ishift; simpl.
   rewrite !Z.eqb_refl. reflexivity.
 Qed.
